@@ -7,6 +7,7 @@ R01b  orthogonalisation: for l in k+1..csd: if (support[l] * C == 1) support[l] 
       list taken from the same search result; the search input is support[k], read after any swap
 R01c  a failed std::set<Edge>::insert while unfolding a walk always leads to a not-found result (flag-propagating reachability)
 R01d  MPI: only rank 0 emits
+R01e  parity propagation is an exclusive-or with "edge is signed" in update_parities, in the signed search and in the candidate test
 R12b  SPTree::compute_first_in_path labels every node it visits, the root included (the candidate guards that keep cycles simple
       compare these labels)
 SpVecGF2 structure (shared with C17): merge loops and shortcut guards of operator+ (R17a), self-aliasing of operator+= (R17c)
@@ -43,6 +44,21 @@ def run_rules(rep, tier, rules, docs, pos_name='c01_phase.cc', extra=None):
         rep.analysis_broken('positive example %s does not parse against the current headers: %s' % (pos_name, str(e)[:300]))
 
 
+def search_positive(rep, rules):
+    from . import search
+    pos = os.path.join(env.WITNESS, 'positive', 'search_broken.cc')
+    try:
+        pp = env.extract([pos], 'full', ('first:-I' + os.path.join(env.WITNESS, 'positive', 'broken_include4'),))[pos]
+        prep = type(rep)(rep.prop, rep.tier)
+        search.check_parity(prep, pp)
+        search.check_relaxation(prep, pp)
+        search.check_pruning(prep, pp)
+        for r in rules:
+            rep.positive(r, 'witness/positive/search_broken.cc', any(i.status == 'violation' and i.rule == r for i in prep.instances.values()))
+    except env.AnalysisBroken as e:
+        rep.analysis_broken('positive example search_broken.cc does not parse: ' + str(e)[:300])
+
+
 DOCS = {
     'R01a': 'phase loop emits exactly one cycle per phase',
     'R01b': 'support-vector update after each phase; search driven by support[k]',
@@ -60,10 +76,15 @@ DOCS = {
 def run(rep, tier):
     from . import c17, c12
 
+    from . import search
+
     def extra(rep_, prog):
         c17.check_program(rep_, prog, rules=('R17a', 'R17c'))
         c12.check_first_in_path(rep_, prog)
+        search.check_parity(rep_, prog)
     run_rules(rep, tier, RULES, DOCS, extra=extra)
+    rep.rule('R01e', 'parity propagation is an exclusive-or with "edge is signed" (trees, signed search, candidate test)', floor=3)
+    search_positive(rep, ('R01e',))
     rep.rule('R12b', 'every visited tree node (root included) gets a first-in-path label; the candidate guards compare these labels', floor=1)
     rep.rule('R17a', 'SpVecGF2 operator+/operator* are merges whose shortcut guards are strict', floor=3)
     rep.rule('R17c', 'SpVecGF2 compound operators are safe under self-aliasing', floor=1)
